@@ -742,16 +742,31 @@ def rule_identity(chk, rid, repo, functions):
     def singleton(e):
         return (isinstance(e, ast.Constant) and (e.value is None or isinstance(e.value, bool))) or \
             (isinstance(e, ast.Attribute) and isinstance(e.value, ast.Name) and e.value.id[:1].isupper())
-    for rel, q, f in functions:
-        k = 0
+    def hits(f):
         for x in ast.walk(f):
             if isinstance(x, ast.Compare) and any(isinstance(o, (ast.Is, ast.IsNot)) for o in x.ops):
                 operands = [x.left] + list(x.comparators)
                 if any(singleton(e) for e in operands):
-                    continue
-                if any(numeric(e) for e in operands):
-                    chk.decide(rid, f"{rel[:-3].replace('/', '.')}.{q}#identity[{k}]", False,
-                               f"`{ast.unparse(x)}` compares step numbers by identity: equal integers above CPython's small-integer "
-                               "cache are distinct objects, so the test changes its outcome for calculations with more than 256 steps",
-                               rel=rel, node=x, nontrivial=False)
-                    k += 1
+                    yield x, False
+                else:
+                    yield x, any(numeric(e) for e in operands)
+    # the expected count on a correct tree is zero: a built-in positive example must match on every run
+    canary = ast.parse("def f(self, n0, x):\n    if self._r is self._max_n: pass\n    if n0 is not x: pass\n"
+                       "    if x is None: pass\n    if x is not StorageType.RAM: pass\n").body[0]
+    got = [flag for _, flag in hits(canary)]
+    if got != [True, True, False, False]:
+        chk.error(f"{rid}: identity rule does not match its built-in example ({got})")
+    scanned = seen = 0
+    for rel, q, f in functions:
+        k = 0
+        scanned += 1
+        for x, flag in hits(f):
+            seen += 1
+            if flag:
+                chk.decide(rid, f"{rel[:-3].replace('/', '.')}.{q}#identity[{k}]", False,
+                           f"`{ast.unparse(x)}` compares step numbers by identity: equal integers above CPython's small-integer "
+                           "cache are distinct objects, so the test changes its outcome for calculations with more than 256 steps",
+                           rel=rel, node=x, nontrivial=False)
+                k += 1
+    chk.note(f"{rid}: identity rule: {scanned} functions scanned, {seen} identity comparisons, all others with None / bool / enum "
+             "operands; built-in positive example matched")
